@@ -148,7 +148,7 @@ fn c16_span_must_fail() {
     let start: usize = kani::any();
     let end: usize = kani::any();
     kani::assume(start <= end && end <= lens[1] && end - start < 100);
-    kani::assume(lens[0] < (1 << 30)); // inline encoding only (the interned path is in c16_span_roundtrip_interned)
+    kani::assume(lens[0] < (1 << 30) && lens[1] < (1 << 30)); // inline encoding only (the interned path is in c16_span_roundtrip_interned)
     let id = mgr.intern_span(ctxs[1], start, end);
     let _ = mgr.get_span(id);
     assert!(false, "reachability witness");
